@@ -149,6 +149,75 @@ theorem cell_roundtrip (pre msg b : Bytes) (cid : Nat) (pt re : Bool) (hpre : pr
   simp only [Old.cellFromBin, e1, bind, Except.bind, e2, e3, e4, e5, beDec_beEnc 4 cid hn]
   cases pt <;> cases re <;> simp [beDec, beDecAux]
 
+/-- legal connection types and flag values of the hand-written introduction payloads -/
+def legalConn (ct : Bytes) : Prop := ct = Old.sUnknown ∨ ct = Old.sPublic ∨ ct = Old.sSymNat
+def bitVal (k : Nat) : Prop := k = 0 ∨ k = 1
+
+/-- IntroductionRequestPayload: `from_unpack_list(*to_pack_list())` restores every field (advice, connection type,
+    supports_new_style, identifier, addresses, extra bytes) -/
+theorem introduction_request_fields_roundtrip (d l w extra : Val) (adv sns ident : Nat) (ct : Bytes)
+    (ha : bitVal adv) (hs : bitVal sns) (hc : legalConn ct) (hi : ident < 65536) :
+    ∃ pl, Old.introReqPack [d, l, w, .atom (.nat adv), .str ct, .atom (.nat ident), extra, .atom (.nat sns)] = some pl ∧
+      Old.introReqUnpack pl =
+        some [d, l, w, .atom (.nat adv), .str ct, .atom (.nat ident), extra, .atom (.nat sns)] := by
+  have hm : ident % 65536 = ident := Nat.mod_eq_of_lt hi
+  rcases ha with rfl | rfl <;> rcases hs with rfl | rfl <;> rcases hc with rfl | rfl | rfl <;>
+    exact ⟨_, rfl, by simp [Old.introReqUnpack, Old.asBit, truthy, hm]; decide⟩
+
+/-- DiscoveryIntroductionRequestPayload: also `introduce_to` comes back as the same 20 bytes
+    (supports_new_style is always sent as 1 by this class) -/
+theorem discovery_introduction_request_fields_roundtrip (d l w extra : Val) (key : Bytes) (adv ident : Nat) (ct : Bytes)
+    (ha : bitVal adv) (hc : legalConn ct) (hi : ident < 65536) :
+    ∃ pl, Old.discIntroReqPack
+        [.atom (.bytes key), d, l, w, .atom (.nat adv), .str ct, .atom (.nat ident), extra, .atom (.nat 1)] = some pl ∧
+      Old.discIntroReqUnpack pl =
+        some [.atom (.bytes key), d, l, w, .atom (.nat adv), .str ct, .atom (.nat ident), extra, .atom (.nat 1)] := by
+  have hm : ident % 65536 = ident := Nat.mod_eq_of_lt hi
+  rcases ha with rfl | rfl <;> rcases hc with rfl | rfl | rfl <;>
+    exact ⟨_, rfl, by simp [Old.discIntroReqUnpack, Old.asBit, truthy, hm, Old.n]; decide⟩
+
+/-- IntroductionResponsePayload: all three flags, the connection type and both introduction addresses -/
+theorem introduction_response_fields_roundtrip (d l w li wi extra : Val) (sns isns plr ident : Nat) (ct : Bytes)
+    (_h1 : bitVal sns) (_h2 : bitVal isns) (_h3 : bitVal plr) (hc : legalConn ct) (hi : ident < 65536) :
+    ∃ pl, Old.introRespPack [d, l, w, li, wi, .str ct, .atom (.nat ident), extra, .atom (.nat sns), .atom (.nat isns),
+        .atom (.nat plr)] = some pl ∧
+      Old.introRespUnpack pl = some [d, l, w, li, wi, .str ct, .atom (.nat ident), extra, .atom (.nat sns),
+        .atom (.nat isns), .atom (.nat plr)] := by
+  have hm : ident % 65536 = ident := Nat.mod_eq_of_lt hi
+  rcases hc with rfl | rfl | rfl <;>
+    exact ⟨_, rfl, by simp [Old.introRespUnpack, hm]; decide⟩
+
+/-- the pack list of an IntroductionRequestPayload is a legal value of its (generated) wire format, so by
+    `roundtrip_list_at_offset` the unpack list equals the pack list at any offset and the previous theorem applies to it -/
+theorem introduction_request_wire_roundtrip (ip1 ip2 ip3 x : Bytes) (p1 p2 p3 adv sns ident : Nat) (ct : Bytes)
+    (pre post b : Bytes) (pl : List Val)
+    (hip : ip1.length = 4 ∧ ip2.length = 4 ∧ ip3.length = 4)
+    (ha : bitVal adv) (hs : bitVal sns) (hc : legalConn ct) (hi : ident < 65536)
+    (hpl : Old.introReqPack [.addr (.v4 ip1 p1), .addr (.v4 ip2 p2), .addr (.v4 ip3 p3), .atom (.nat adv), .str ct,
+        .atom (.nat ident), .atom (.bytes x), .atom (.nat sns)] = some pl)
+    (hb : packList (.cons .ipv4 (.cons .ipv4 (.cons .ipv4 (.cons .bits (.cons (.struct [.uint 2]) (.cons .raw .nil))))))
+        (ValList.ofList pl) = .ok b)
+    (hpost : post = []) :
+    unpackListAt (.cons .ipv4 (.cons .ipv4 (.cons .ipv4 (.cons .bits (.cons (.struct [.uint 2]) (.cons .raw .nil))))))
+        (pre ++ b ++ post) pre.length = .ok (ValList.ofList pl, pre.length + b.length) ∧
+      Old.introReqUnpack pl = some [.addr (.v4 ip1 p1), .addr (.v4 ip2 p2), .addr (.v4 ip3 p3), .atom (.nat adv), .str ct,
+        .atom (.nat ident), .atom (.bytes x), .atom (.nat sns)] := by
+  obtain ⟨pl', h1, h2⟩ := introduction_request_fields_roundtrip (.addr (.v4 ip1 p1)) (.addr (.v4 ip2 p2))
+    (.addr (.v4 ip3 p3)) (.atom (.bytes x)) adv sns ident ct ha hs hc hi
+  rw [hpl] at h1
+  cases h1
+  refine ⟨?_, h2⟩
+  apply roundtrip_list_at_offset _ _ _ _ _ _ hb (fun _ => hpost)
+  simp only [Old.introReqPack, Option.some.injEq] at hpl
+  subst hpl
+  obtain ⟨e1, e2, e3⟩ := hip
+  rcases ha with rfl | rfl <;> rcases hs with rfl | rfl <;> rcases hc with rfl | rfl | rfl <;>
+    simp [ValList.ofList, wfList, wf, wfAddr, wfFields, wfField, endsInRaw, e1, e2, e3, Old.n, isBit, Old.encConn] <;> decide
+
+/-- the format list used above is the generated one of the shipped class -/
+example : (findPayload "ipv8.messaging.payload.IntroductionRequestPayload").map (·.fmts) =
+    some (.cons .ipv4 (.cons .ipv4 (.cons .ipv4 (.cons .bits (.cons (.struct [.uint 2]) (.cons .raw .nil)))))) := by decide
+
 /-! ## non-vacuity: the hypotheses are satisfiable by concrete, non-trivial values -/
 
 /-- a `varlenH-list` of two byte strings followed by `bits`, at offset 3, with a suffix -/
